@@ -167,7 +167,7 @@ CasesFile == IF "VERIF_CASES" \in DOMAIN IOEnv THEN IOEnv.VERIF_CASES ELSE "case
 (* subranges among the requested ones, attr = attributes cached.                                 *)
 Requested(nn, ss, off, len) ==
     IF off >= nn THEN {}
-    ELSE { o \in 0..(nn - 1) : o % ss = 0 /\ AlignDown(off, ss) <= o /\ o < Min(off + len, nn) }
+    ELSE { o \in 0..(nn - 1) : o % ss = 0 /\ AlignDown(off, ss) <= o /\ o < MinI(off + len, nn) }
 RngCases ==
     UNION { { [kind |-> "rng", n |-> c[1], S |-> c[2], M |-> c[3], off |-> c[4], len |-> c[5],
                hit |-> SetToSeq(h), attr |-> at] :
@@ -185,10 +185,10 @@ HistOps(nn) ==
       Op("getrange", "a", 0, nn + 1), Op("getrange", "a", 1, 1), Op("getrange", "b", 0, 1),
       Op("evict", "all", 0, 0), Op("evict", "content", 0, 0), Op("evict", "exists", 0, 0),
       Op("evict", "attrs", 0, 0), Op("evict", "subrange", 0, 0) }
+HistCfgs == { c \in HistSizes \X MaxCacheables : c[1] > 0 \/ c[2] = MinOf(MaxCacheables) }
 HistCases ==
-    UNION { { [kind |-> "hist", n |-> nn, S |-> 2, M |-> 1, mc |-> cc, ops |-> s] :
-                s \in UNION { [1..k -> HistOps(nn)] : k \in 1..HistLen } } :
-            nn \in HistSizes, cc \in MaxCacheables }
+    UNION { { [kind |-> "hist", n |-> c[1], S |-> 2, M |-> 1, mc |-> c[2], ops |-> s] :
+                s \in UNION { [1..k -> HistOps(c[1])] : k \in 1..HistLen } } : c \in HistCfgs }
 
 ASSUME ndJsonSerialize(CasesFile, SetToSeq(RngCases) \o SetToSeq(HistCases))
 =============================================================================
